@@ -71,7 +71,16 @@ fn show(a: &M2) -> String {
 /// an Fq2 operand: components possibly related / zero
 pub fn fq2_operand(s: &mut Src, info: &mut Info, tag: &str) -> M2 {
     let q = zp::q();
-    let (re, im) = match s.weighted(&[6, 2, 2, 3]) {
+    let (re, im) = match s.weighted(&[6, 2, 2, 3, 2]) {
+        4 => {
+            // imaginary part = zeta * real part for a root of unity zeta of order 2, 3, 4 or 6
+            let a = felt(s, Md::Q);
+            let (zeta, _) = crate::grp::fq_roots_of_unity(1 + s.choose(5));
+            info.class("comp-rel:root-of-unity-line");
+            info.class(format!("comp:{}", a.class));
+            let b = zp::mul_mod(&a.v, &crate::rf::f_to_big(&zeta), q);
+            (a.v, b)
+        }
         0 => {
             let a = felt(s, Md::Q);
             let b = felt(s, Md::Q);
